@@ -1,6 +1,291 @@
-//! C04 — not implemented yet.
-use crate::core::Ctx;
-use serde_json::Value;
+//! C04 — fangs run in onion order and exactly within their application's scope (DESIGN §5 C04).
+//!
+//! configuration = tree of applications (mount prefixes, 0..2 fangs each, own routes, local fangs, optional
+//! blocking fang, `Ohkami::new` / `Ohkami::with` form); every configuration is built by the real code and
+//! queried with every request of a path alphabet; the per-request trace written by the instrumented fangs
+//! is compared with the order computed from the tree.
 
-pub fn run(ctx: &mut Ctx) { ctx.machinery_error("C04 engine not implemented".into()); }
-pub fn replay(ctx: &mut Ctx, _case: &Value) { ctx.machinery_error("C04 engine not implemented".into()); }
+use crate::app;
+use crate::appgen::{self, AppDesc, FangDesc, FlatApp, FlatRoute, ItemDesc, MethodDesc};
+use crate::core::{panic_kind, Ctx};
+use crate::refmodel::router::{admissible, is_param, request_segments, Entry, Match};
+use serde_json::{json, Value};
+
+/* ---------------- grammar ---------------- */
+
+#[derive(Clone)]
+struct RouteChoice { path: &'static str, methods: &'static [&'static str], local: usize }
+
+/// menus of own-route sets (each entry: routes of one application)
+fn route_menu(full: bool) -> Vec<Vec<RouteChoice>> {
+    let r = |path, methods, local| RouteChoice { path, methods, local };
+    let mut m = vec![
+        vec![],
+        vec![r("/", &["GET"][..], 0)],
+        vec![r("/x", &["GET"][..], 0)],
+        vec![r("/x", &["GET", "POST"][..], 1)],
+        vec![r("/:q", &["GET"][..], 0)],
+        vec![r("/x/y", &["POST"][..], 0), r("/", &["GET"][..], 0)],
+    ];
+    if full {
+        m.push(vec![r("/x", &["POST"][..], 2)]);
+        m.push(vec![r("/x/y", &["GET"][..], 0), r("/x", &["GET"][..], 1)]);
+        m.push(vec![r("/:q", &["GET", "POST"][..], 1), r("/", &["POST"][..], 0)]);
+    }
+    m
+}
+
+const PREFIXES: [&str; 4] = ["/a", "/a/b", "/:p", "/b"];
+
+fn segs(p: &str) -> Vec<String> { appgen::split_route(p) }
+
+fn seg_overlap(a: &str, b: &str) -> bool { is_param(a) || is_param(b) || a == b }
+/// pattern `long` lies under (or equals) pattern `short`
+fn under(long: &[String], short: &[String]) -> bool {
+    long.len() >= short.len() && short.iter().zip(long).all(|(s, l)| seg_overlap(s, l))
+}
+
+fn mk_app(tag: &str, nfangs: usize, action: bool, with_form: bool, routes: &[RouteChoice], full_prefix: &[String], children: Vec<(String, AppDesc)>) -> AppDesc {
+    let fang = |id: String| if action { FangDesc::Action(id) } else { FangDesc::Trace(id) };
+    let mut items = vec![];
+    for rc in routes {
+        let mut full = full_prefix.to_vec(); full.extend(segs(rc.path));
+        let np = full.iter().filter(|s| is_param(s)).count().min(2) as u8;
+        let full_str = if full.is_empty() { "/".to_string() } else { full.iter().map(|s| format!("/{s}")).collect() };
+        items.push(ItemDesc::Route { path: rc.path.to_string(), methods: rc.methods.iter().map(|m| MethodDesc {
+            method: m.to_string(), hid: format!("{m} {full_str}"), n_params: np,
+            local_fangs: (0..rc.local).map(|i| fang(format!("{tag}.{}{}l{i}", rc.path, m))).collect(),
+        }).collect() });
+    }
+    for (p, c) in children { items.push(ItemDesc::Mount { prefix: p, app: c }) }
+    AppDesc { fangs: (0..nfangs).map(|i| fang(format!("{tag}{i}"))).collect(), with_form, items }
+}
+
+/// precondition of the property: no route or mount of the same application overlaps a mount prefix
+fn precondition_ok(own_routes: &[RouteChoice], mounts: &[&str]) -> bool {
+    for (i, m) in mounts.iter().enumerate() {
+        let ms = segs(m);
+        for rc in own_routes { if under(&segs(rc.path), &ms) { return false } }
+        for (j, o) in mounts.iter().enumerate() { if i != j { let os = segs(o); if under(&os, &ms) || under(&ms, &os) { return false } } }
+    }
+    true
+}
+
+/* ---------------- oracle ---------------- */
+
+#[derive(Debug, Clone, PartialEq, Eq)]
+struct Expect { trace: Vec<String>, status: Option<u16>, hid: Option<String>, position: &'static str }
+
+fn pattern_prefix_matches(prefix: &[String], req: &[String]) -> bool {
+    req.len() >= prefix.len() && prefix.iter().zip(req).all(|(p, s)| if is_param(p) { !s.is_empty() } else { p == s })
+}
+
+/// None = the statement does not fix the outcome (ambiguous routing reading)
+fn expected(apps: &[FlatApp], routes: &[FlatRoute], method: &str, path: &str) -> Option<Expect> {
+    let mut table: Vec<Entry> = routes.iter().map(|r| Entry { segs: r.segs.clone(), method: r.method.clone(), hid: r.hid.clone() }).collect();
+    // a mount prefix is a static alternative in the tree even when nothing is registered under it (yet): whether it
+    // shadows a param route of the parent is a routing question the statement of C04 does not settle (C01 counts
+    // it as ambiguous, too) -> let the reference see it as a pattern that no method can hit
+    for a in apps.iter().filter(|a| !a.prefix.is_empty()) { table.push(Entry { segs: a.prefix.clone(), method: "~mount".into(), hid: "~mount".into() }) }
+    let adm = admissible(&table, method, path);
+    if adm.len() != 1 { return None }
+    let req = request_segments(path)?;
+    if path == "//" { return None }
+    // enclosing applications by mount prefix, outermost first
+    let mut chain: Vec<usize> = (0..apps.len()).filter(|&i| pattern_prefix_matches(&apps[i].prefix, &req)).collect();
+    chain.sort_by_key(|&i| apps[i].prefix.len());
+    // they must form a parent chain (guaranteed by the generator's precondition)
+    for w in chain.windows(2) { if apps[w[1]].parent.map(|p| !chain.contains(&p)).unwrap_or(false) { return None } }
+    let mut enter: Vec<(String, bool)> = vec![]; // (id, blocks)
+    for &a in &chain { for f in &apps[a].fangs { enter.push((f.id().to_string(), f.blocks())) } }
+    let m = adm.into_iter().next().unwrap();
+    let (hid, position) = match &m {
+        Match::Handler { hid, .. } => {
+            let r = routes.iter().find(|r| r.hid == *hid).unwrap();
+            if r.apps != chain { return None }
+            for f in &r.local_fangs { enter.push((f.id().to_string(), f.blocks())) }
+            (Some(hid.clone()), "hit")
+        }
+        Match::NoHandler => (None, if chain.len() > 1 { "miss-inside-mount" } else { "miss-at-root" }),
+    };
+    let mut trace = vec![];
+    let mut entered = vec![];
+    let mut blocked = false;
+    for (id, blocks) in &enter {
+        if *blocks { trace.push(format!("!{id}")); blocked = true; break }
+        trace.push(format!(">{id}")); entered.push(id.clone());
+    }
+    if !blocked { if let Some(h) = &hid { trace.push(format!("H{h}")) } }
+    for id in entered.iter().rev() { trace.push(format!("<{id}")) }
+    let status = if blocked { Some(403) } else if hid.is_some() { Some(200) } else if method == "OPTIONS" { None } else { Some(404) };
+    Some(Expect { trace, status, hid: if blocked { None } else { hid }, position })
+}
+
+fn classify(exp: &Expect, got: &[String], apps: &[FlatApp], status_ok: bool) -> String {
+    let all_app_fangs: Vec<&str> = apps.iter().flat_map(|a| a.fangs.iter().map(|f| f.id())).collect();
+    let what = |e: &str| -> &'static str {
+        let id = &e[1..];
+        if e.starts_with('H') { "handler" } else if all_app_fangs.contains(&id) { "app-fang" } else { "local-fang" }
+    };
+    let mut extra: Vec<&str> = vec![]; let mut missing: Vec<&str> = vec![];
+    for e in got { if !exp.trace.contains(e) { extra.push(what(e)) } }
+    for e in &exp.trace { if !got.contains(e) { missing.push(what(e)) } }
+    extra.sort(); extra.dedup(); missing.sort(); missing.dedup();
+    let kind = if !extra.is_empty() && !missing.is_empty() { format!("extra:{}+missing:{}", extra.join(","), missing.join(",")) }
+        else if !extra.is_empty() { format!("extra:{}", extra.join(",")) }
+        else if !missing.is_empty() { format!("missing:{}", missing.join(",")) }
+        else if got != exp.trace.as_slice() {
+            let mut g = got.to_vec(); g.sort(); let mut e = exp.trace.clone(); e.sort();
+            if g == e { "order".to_string() } else { "duplicate-events".to_string() }
+        } else if !status_ok { "wrong-status".to_string() } else { "other".to_string() };
+    format!("C04/{}/{}", exp.position, kind)
+}
+
+/* ---------------- exploration ---------------- */
+
+fn paths(depth: usize) -> Vec<String> {
+    let alphabet = ["a", "b", "x", "y", "z"];
+    let mut out = vec!["/".to_string()];
+    let mut frontier = vec![String::new()];
+    for _ in 0..depth {
+        let mut next = vec![];
+        for p in &frontier { for s in alphabet { next.push(format!("{p}/{s}")) } }
+        for p in &next { out.push(p.clone()); out.push(format!("{p}/")); }
+        frontier = next;
+    }
+    out
+}
+
+fn check_config(ctx: &mut Ctx, desc: &AppDesc, reqs: &[(String, String)], shape: &str) {
+    let router = match appgen::build(desc) {
+        Ok(r) => r,
+        Err(p) => {
+            ctx.violation(&format!("C04/registration/{shape}/rejected:{}", panic_kind(&p)), true, || json!({"app": desc, "observed": format!("panic: {p}")}));
+            return
+        }
+    };
+    ctx.states += 1;
+    let (apps, routes) = appgen::flatten(desc);
+    let nested_fangs = apps.iter().filter(|a| !a.fangs.is_empty()).count() >= 2;
+    for (method, path) in reqs {
+        ctx.transitions += 1;
+        let Some(exp) = expected(&apps, &routes, method, path) else { ctx.ambiguous("routing-reading"); continue };
+        appgen::trace_clear();
+        let out = app::oneshot(&router, &app::request(method, path, &[("Host", "h")], b""));
+        let got = appgen::trace_take();
+        let status = out.status();
+        let status_ok = match (exp.status, status) { (Some(e), Some(s)) => e == s, (None, Some(_)) => true, _ => false };
+        let witness = || json!({"app": desc, "shape": shape, "method": method, "path": path, "expected_trace": exp.trace, "expected_status": exp.status,
+                                "observed_trace": got, "observed": out.kind()});
+        if status.is_none() {
+            ctx.violation(&format!("C04/{}/broken:{}", exp.position, out.kind()), true, witness);
+        } else if got == exp.trace && status_ok {
+            // collision: the request exercises scoping across an application boundary (a miss, or a hit under a mount with fangs on both sides)
+            let collision = nested_fangs && (exp.position != "hit" || exp.trace.len() > 3);
+            ctx.pass(&format!("{}:{}:{}ev", exp.position, status.unwrap(), exp.trace.len().min(9)), !exp.trace.is_empty(), collision);
+        } else {
+            ctx.violation(&classify(&exp, &got, &apps, status_ok), true, witness);
+        }
+    }
+    ctx.sample(|| json!({"app": desc, "shape": shape, "requests": reqs.len()}));
+}
+
+fn with_block(desc: &AppDesc, which: usize) -> Option<AppDesc> {
+    // replace the `which`-th fang (pre-order over applications, then local fangs) by a blocking one
+    fn rec(a: &mut AppDesc, k: &mut isize) -> bool {
+        for f in a.fangs.iter_mut() { if *k == 0 { *f = FangDesc::Block(f.id().to_string()); return true } *k -= 1; }
+        for it in a.items.iter_mut() {
+            match it {
+                ItemDesc::Route { methods, .. } => for m in methods { for f in m.local_fangs.iter_mut() { if *k == 0 { *f = FangDesc::Block(f.id().to_string()); return true } *k -= 1; } },
+                ItemDesc::Mount { app, .. } | ItemDesc::Inline { app } => if rec(app, k) { return true },
+            }
+        }
+        false
+    }
+    let mut d = desc.clone();
+    let mut k = which as isize;
+    rec(&mut d, &mut k).then_some(d)
+}
+
+pub fn run(ctx: &mut Ctx) {
+    app::pin_clock();
+    let quick = ctx.quick();
+    let menu = route_menu(!quick);
+    let small_menu: Vec<Vec<RouteChoice>> = menu.iter().take(4).cloned().collect();
+    let methods = ["GET", "POST", "PUT", "HEAD", "OPTIONS"];
+    let reqs: Vec<(String, String)> = paths(if quick { 3 } else { 4 }).into_iter().flat_map(|p| methods.iter().map(move |m| (m.to_string(), p.clone()))).collect();
+    let fang_counts: &[usize] = &[0, 1, 2];
+
+    let mut unit = |ctx: &mut Ctx, desc: AppDesc, shape: &str, blocks: bool| {
+        if !ctx.mine() { return }
+        if ctx.out_of_time() { return }
+        check_config(ctx, &desc, &reqs, shape);
+        if blocks {
+            let mut k = 0;
+            while let Some(b) = with_block(&desc, k) { check_config(ctx, &b, &reqs, &format!("{shape}+block")); k += 1; }
+        }
+    };
+
+    // T1: single application
+    for &nf in fang_counts { for rs in &menu { for form in [false, true] { for action in [false, true] {
+        if nf == 0 && action { continue }
+        unit(ctx, mk_app("r", nf, action, form, rs, &[], vec![]), "T1", true);
+    } } } }
+    // T2: root -> child
+    for &nf_r in fang_counts { for rs_r in &menu { for prefix in PREFIXES { if !precondition_ok(rs_r, &[prefix]) { continue }
+        for &nf_c in fang_counts { for rs_c in &menu { for form in [false, true] {
+            let action = (nf_r + nf_c) % 2 == 1;
+            let child = mk_app("c", nf_c, action, !form, rs_c, &segs(prefix), vec![]);
+            unit(ctx, mk_app("r", nf_r, action, form, rs_r, &[], vec![(prefix.to_string(), child)]), "T2", nf_r + nf_c > 0 && rs_c.len() == 1);
+        } } }
+    } } }
+    // T3: root -> two children ; T4: root -> child -> grandchild
+    let (m3, f3): (&Vec<Vec<RouteChoice>>, &[usize]) = if quick { (&small_menu, &[1]) } else { (&menu, &[0, 1, 2]) };
+    for (p1, p2) in [("/a", "/b"), ("/a/b", "/b")] {
+        for &nf_r in f3 { for rs_r in m3.iter() { if !precondition_ok(rs_r, &[p1, p2]) { continue }
+            for &nf_1 in f3 { for rs_1 in m3.iter() { for &nf_2 in f3 { for rs_2 in m3.iter() {
+                if !quick && rs_1.len() + rs_2.len() + rs_r.len() > 3 { continue }
+                let c1 = mk_app("c", nf_1, false, true, rs_1, &segs(p1), vec![]);
+                let c2 = mk_app("d", nf_2, true, false, rs_2, &segs(p2), vec![]);
+                unit(ctx, mk_app("r", nf_r, false, false, rs_r, &[], vec![(p1.to_string(), c1), (p2.to_string(), c2)]), "T3", false);
+            } } } }
+        } }
+    }
+    for p1 in PREFIXES { for p2 in if quick { &PREFIXES[..2] } else { &PREFIXES[..] } {
+        for &nf_r in f3 { for rs_r in m3.iter() { if !precondition_ok(rs_r, &[p1]) { continue }
+            for &nf_1 in f3 { for rs_1 in m3.iter() { if !precondition_ok(rs_1, &[p2]) { continue }
+                for &nf_2 in f3 { for rs_2 in m3.iter() {
+                    if !quick && rs_1.len() + rs_2.len() + rs_r.len() > 3 { continue }
+                    let mut gp = segs(p1); gp.extend(segs(p2));
+                    let g = mk_app("g", nf_2, true, true, rs_2, &gp, vec![]);
+                    let c = mk_app("c", nf_1, false, false, rs_1, &segs(p1), vec![(p2.to_string(), g)]);
+                    unit(ctx, mk_app("r", nf_r, false, true, rs_r, &[], vec![(p1.to_string(), c)]), "T4", false);
+                } }
+            } }
+        } }
+    } }
+    // arity sweep: every tuple arity 0..8 of application fangs and every local-fang arity 0..4 on a fixed tree
+    for n_root in 0..=8usize { for n_child in [0usize, 1, 8] { for n_local in 0..=4usize { for form in [false, true] { for action in [false, true] {
+        if !ctx.mine() { continue }
+        let fang = |id: String| if action { FangDesc::Action(id) } else { FangDesc::Trace(id) };
+        let child = AppDesc { fangs: (0..n_child).map(|i| fang(format!("c{i}"))).collect(), with_form: !form, items: vec![
+            ItemDesc::Route { path: "/x".into(), methods: vec![MethodDesc { method: "GET".into(), hid: "GET /a/x".into(), n_params: 0, local_fangs: (0..n_local).map(|i| fang(format!("l{i}"))).collect() }] }] };
+        let root = AppDesc { fangs: (0..n_root).map(|i| fang(format!("r{i}"))).collect(), with_form: form, items: vec![
+            ItemDesc::Route { path: "/y".into(), methods: vec![MethodDesc { method: "GET".into(), hid: "GET /y".into(), n_params: 0, local_fangs: vec![] }] },
+            ItemDesc::Mount { prefix: "/a".into(), app: child }] };
+        check_config(ctx, &root, &reqs, "arity");
+    } } } } }
+
+    ctx.extra.insert("rule".into(), json!("case = (application tree, request); trees satisfy the property's precondition (no route or mount of an application overlaps one of its mount prefixes); non-trivial = the expected trace is non-empty; collision = the request crosses an application boundary where both sides carry fangs (a miss inside/outside a mount, or a hit under a mount) - the situation in which finalization may compress nodes across the boundary"));
+    ctx.extra.insert("bounds".into(), json!({"tree_shapes": ["T1 root", "T2 root->child", "T3 root->2 children", "T4 root->child->grandchild", "arity sweep 0..8 app fangs x 0..4 local fangs"],
+        "prefixes": PREFIXES, "fangs_per_app": "0..2", "route_menu_entries": menu.len(), "T3/T4 menu": if quick { "4 entries, 1 fang each" } else { "full, <=3 routes in total" },
+        "path_depth": if quick { 3 } else { 4 }, "path_segments": ["a","b","x","y","z"], "methods": methods, "block_variants": "every fang position of T1 and single-route T2 configurations"}));
+    ctx.traces_validated = ctx.transitions;
+}
+
+pub fn replay(ctx: &mut Ctx, case: &Value) {
+    app::pin_clock();
+    let desc: AppDesc = serde_json::from_value(case["app"].clone()).expect("app");
+    let reqs = vec![(case["method"].as_str().unwrap_or("GET").to_string(), case["path"].as_str().unwrap_or("/").to_string())];
+    check_config(ctx, &desc, &reqs, case["shape"].as_str().unwrap_or("replay"));
+}
